@@ -2,6 +2,7 @@
 import bisect
 
 ID = "C02"
+EXTRA_PROPS = ["OVecFnsTables"]   # compare_item / sort_vector / get / append / merge_till as TRANSLATED from src/orderedvec.rs = the model
 N_QUICK, N_THOROUGH = 1500, 150000
 STRICT_MODEL = False   # the model also predicts the order of equal ranks (stable sort); the property does not fix it
 RULE = ("histories over append/get/len/iter/clear on the real OrderedVec<T>, T = (i32 key, unique id) ordered by key or the real "
@@ -301,3 +302,4 @@ LEVEL_TEXT = ("Theorems c02_* prove for the Lean model of orderedvec.rs (paramet
               "histories through the real OrderedVec and checking every answer with the executable acceptance test the theorems are about.")
 LEVEL_NOTE = ("Trusted: Lean kernel + propext/Classical.choice/Quot.sound; rayon's par_sort assumed to be a stable sort; the hand-written model of "
               "orderedvec.rs is tied to the code only by the differential correspondence (thresholds taken from the source by the extractor).")
+TECHNIQUE += ' + translator tie: compare_item, sort_vector, the index arithmetic of get, append (as a parameterised statement sequence) and the loop of merge_till translated from src/orderedvec.rs and proved equal to the model for every state and batch (Props/OVecFnsTables.lean)'
